@@ -26,6 +26,7 @@ RULE = ("cases = (frame with 2 geometry columns laid out so that partitions have
         ">= 2 partitions; distinct = hash of (frame, writer, partitions, geometry, box)")
 ASSUMPTIONS = ["partitions whose recorded extent is NaN neither overlap nor miss: only the no-row-lost "
                "clause applies to them", "exactness domain for the row-level C01 oracle (integer coordinates)"]
+USE_CONTRACTS = True      # in-situ icontract monitors (vmon/contracts.py)
 DECIDING_COUNTERS = ["datasets_checked", "bounds_rows_checked", "prunes_checked"]
 
 
